@@ -279,6 +279,19 @@ class RecWatcherExUpd(RecWatcherEx):
 
 WATCHERS = {0: None, 1: RecWatcher, 2: RecWatcherEx, 3: RecWatcherExUpd}
 
+
+# domain matching functions of op 43, called as fn(domain of the request, domain a record is filed under)
+def _dm_exact(a, b):
+    return a == b
+
+
+def _dm_prefix(a, b):
+    return a.startswith(b)
+
+
+DOMAIN_MATCHERS = {0: None, 1: casbin.util.key_match_func, 2: _dm_exact, 3: _dm_prefix}
+DOMAIN_MATCHER_NAMES = {0: "None", 1: "key_match", 2: "exact (a == b)", 3: "prefix (a.startswith(b))"}
+
 # ops whose result comes from a Python set / dict of unspecified order -> compared sorted
 SORTED_RESULT = {55, 56, 57, 58, 60, 61, 63, 64}
 
@@ -511,6 +524,10 @@ class Impl:
                 else:
                     self.adapter.rows = [x for x in self.adapter.rows if x[0] != name]
             return [0, []]
+        if c == 43:
+            # a domain matching function is registered for g / replaced / taken away again (None) in the middle of a
+            # history.  Not part of the Mgmt model: histories containing it are run with compare_model=False.
+            return self._b(e.add_named_domain_matching_func("g", DOMAIN_MATCHERS[op[1]]))
         if c == 50:
             return self._b(e.enforce(*S(op[1])))
         if c == 51:
@@ -564,6 +581,9 @@ class Impl:
             # containing it are run with compare_model=False (see batch_block for the observational spec)
             v = e.batch_enforce([S(r) for r in op[1]])
             return [0, [(1 if x else 0) if isinstance(x, bool) else ["BAD", repr(x)] for x in v]]
+        if c == 72:
+            # get_all_roles_by_domain(domain) (comes from a set).  Not part of the Mgmt model.
+            return [0, sorted(ATOMS.rule(e.get_all_roles_by_domain(ATOMS.s(op[1]))))]
         raise ValueError(f"unknown op {op}")
 
     def step(self, op):
@@ -798,7 +818,8 @@ def pretty_op(op):
              34: "build_role_links", 35: "enable_auto_save", 36: "enable_auto_build_role_links",
              37: "enable_auto_notify_watcher", 38: "enable_enforce", 39: "set_role_manager(fresh)+build_role_links",
              40: "STORE(out of band): insert row at position", 41: "STORE(out of band): delete row",
-             42: "STORE(out of band): delete every row of the policy type", 50: "enforce", 51: "enforce_ex", 52: "get_policy",
+             42: "STORE(out of band): delete every row of the policy type",
+             43: "add_named_domain_matching_func(g, fn)", 72: "get_all_roles_by_domain", 50: "enforce", 51: "enforce_ex", 52: "get_policy",
              53: "get_filtered_policy", 54: "has_policy", 55: "get_roles_for_user", 56: "get_users_for_role",
              57: "get_roles_for_user_in_domain", 58: "get_users_for_role_in_domain", 59: "rm.has_link",
              60: "get_implicit_roles_for_user", 61: "get_implicit_permissions_for_user",
@@ -832,6 +853,8 @@ def pretty_op(op):
         return [names[c], p(args[0]), args[1], p(args[2])]
     if c in (32, 35, 36, 37, 38):
         return [names[c]] + args
+    if c == 43:
+        return [names[c], DOMAIN_MATCHER_NAMES.get(args[0], args[0])]
     return [names.get(c, c)] + [p(a) for a in args]
 
 
